@@ -30,7 +30,7 @@ impl<'a> LogosLexer<'a> {
   uninterp spec fn off(&self) -> int;
   spec fn rem(&self) -> Seq<u8> { self.src().skip(self.off()) }
   spec fn inv(&self) -> bool {
-    0 <= self.off() <= self.src().len() && self.src().len() <= u32::MAX && valid_utf8_suffix(self.src(), self.off())
+    0 <= self.off() <= self.src().len() && self.src().len() <= i32::MAX && valid_utf8_suffix(self.src(), self.off())
   }
 
   #[verifier::external_body]
@@ -80,6 +80,15 @@ proof fn lemma_pos_bounds(s: Seq<u8>, off: int)
   if off > 0 { lemma_pos_bounds(s, off - 1); }
 }
 
+/// positions are monotone in the offset
+proof fn lemma_pos_monotone(s: Seq<u8>, a: int, b: int)
+  requires 0 <= a <= b <= s.len()
+  ensures line_of(s, a) < line_of(s, b) || (line_of(s, a) == line_of(s, b) && col_of(s, a) <= col_of(s, b))
+  decreases b - a
+{
+  if a < b { lemma_pos_monotone(s, a, b - 1); }
+}
+
 /// advancing over n bytes none of which is '\n' keeps the line and adds n columns
 proof fn lemma_advance_no_newline(s: Seq<u8>, off: int, n: int)
   requires 0 <= off, 0 <= n, off + n <= s.len(), forall|i: int| off <= i < off + n ==> s[i] != 10u8
@@ -109,6 +118,22 @@ fn str_starts_with_2bytes(s: &str, c1: u8, c2: u8) -> (b: bool)
 /// `String::from_utf8_lossy(bytes).trim().to_string()` — total on every byte slice
 #[verifier::external_body]
 fn lossy_trimmed_string(bytes: &[u8]) -> String { unimplemented!() }
+
+uninterp spec fn valid_utf8_bytes(b: Seq<u8>) -> bool;
+/// Trusted UTF-8 fact: well-formed UTF-8 cut at a char boundary is well-formed
+broadcast axiom fn axiom_prefix_at_boundary_is_valid(s: Seq<u8>, off: int, n: int)
+  requires valid_utf8_suffix(s, off), 0 <= off, 0 <= n <= s.len() - off, is_boundary(s.skip(off), n)
+  ensures #[trigger] valid_utf8_bytes(s.skip(off).take(n));
+/// `String::from_utf8(bytes.to_vec()).unwrap()`: panics unless the bytes are well-formed UTF-8
+#[verifier::external_body]
+fn string_from_utf8_unwrap(bytes: &[u8]) -> String
+  requires valid_utf8_bytes(bytes@)
+{ unimplemented!() }
+
+/// `post_process_block_comment(&String::from_utf8_lossy(bytes))` — lossy decoding, then an iterator
+/// chain over lines (split / trim / filter / join); total on every byte slice
+#[verifier::external_body]
+fn post_process_lossy(bytes: &[u8]) -> String { unimplemented!() }
 
 /// start <= end in the (line, column) order
 spec fn pos_le(a: Position, b: Position) -> bool { a.0 < b.0 || (a.0 == b.0 && a.1 <= b.1) }
@@ -241,6 +266,124 @@ impl<'a> WrappedLogosLexer<'a> {
       }
       lemma_advance_no_newline(s, o, bump_counter as int);
       lemma_pos_bounds(s, o + bump_counter);
+    }
+//@end
+
+//@extract crates/samlang-parser/src/lexer.rs :: impl<'a> WrappedLogosLexer<'a> / fn lex_str_lit_opt
+//@ret r
+//@replace remainder.starts_with('"') => str_starts_with_byte(remainder, b'"') ## R3: ASCII pattern at the start of a str = its first byte
+//@replace String::from_utf8(remainder_bytes[..(pos + 1)].to_vec()).unwrap() => string_from_utf8_unwrap(&remainder_bytes[..(pos + 1)]) ## R3: the unwrap becomes a precondition (bytes are well-formed UTF-8); the slice expression is kept
+//@contract
+    requires
+      old(self).pos_ok(),
+    ensures
+      r is None ==> *final(self) == *old(self),                                // :no_token_no_state_change
+      r is Some ==> {
+        let loc = r->Some_0.0;
+        &&& final(self).pos_ok()
+        &&& final(self).lexer.src() == old(self).lexer.src()
+        &&& final(self).lexer.off() >= old(self).lexer.off() + 2
+        &&& loc.start == old(self).position && loc.end == final(self).position
+        &&& loc.module_reference == old(self).module_reference
+        &&& pos_le(loc.start, loc.end)
+        &&& old(self).lexer.src()[old(self).lexer.off()] == 0x22u8 && old(self).lexer.src()[final(self).lexer.off() - 1] == 0x22u8
+        &&& forall|i: int| old(self).lexer.off() <= i < final(self).lexer.off() ==> old(self).lexer.src()[i] != 10u8
+      },                                                                       // :string_token_location_is_faithful
+      final(self).module_reference == old(self).module_reference,
+//@loop 0
+      invariant
+        *self == *old(self),
+        old(self).pos_ok(),
+        remainder_bytes@ == old(self).lexer.rem(),
+        start == old(self).position,
+        1 <= pos,
+        remainder_bytes@.len() >= 1 && remainder_bytes@[0] == 0x22u8,
+        forall|i: int| 0 <= i < pos && i < remainder_bytes@.len() ==> remainder_bytes@[i] != 10u8,
+      decreases remainder_bytes@.len() - pos,
+//@loop 1 iter=it
+          invariant
+            0 <= escape_count <= it.index(),
+            it.index() <= it.seq().len(),
+            it.seq().len() == pos - 1,
+            forall|j: int| 0 <= j < it.seq().len() ==> 1 <= #[trigger] it.seq()[j] < pos,
+            pos < remainder_bytes@.len() <= i32::MAX,
+//@before let string =
+          proof {
+            broadcast use axiom_after_ascii_is_boundary, axiom_prefix_at_boundary_is_valid;
+            let s = old(self).lexer.src(); let o = old(self).lexer.off();
+            assert(s[o + pos] == remainder_bytes@[pos as int]);
+            assert(is_boundary(s.skip(o), pos + 1));
+            assert(remainder_bytes@.subrange(0, pos + 1) == s.skip(o).take(pos + 1));
+            assert forall|i: int| o <= i < o + pos + 1 implies s[i] != 10u8 by { assert(s[i] == remainder_bytes@[i - o]); }
+            lemma_advance_no_newline(s, o, pos + 1);
+            lemma_pos_bounds(s, o + pos + 1);
+          }
+//@end
+
+//@extract crates/samlang-parser/src/lexer.rs :: impl<'a> WrappedLogosLexer<'a> / fn lex_block_comment_opt
+//@ret r
+//@dropnested fn post_process_block_comment
+//@replace remainder.starts_with("/*") => str_starts_with_2bytes(remainder, b'/', b'*') ## R3: ASCII pattern at the start of a str = its first bytes
+//@replace post_process_block_comment(&String::from_utf8_lossy(&chars[3..(chars.len() - 2)])) => post_process_lossy(&chars[3..(chars.len() - 2)]) ## R3: nested helper (iterator chain over lines) + lossy decoding are total; the slice expression is kept
+//@replace post_process_block_comment(&String::from_utf8_lossy(&chars[2..(chars.len() - 2)])) => post_process_lossy(&chars[2..(chars.len() - 2)]) ## R3: nested helper (iterator chain over lines) + lossy decoding are total; the slice expression is kept
+//@contract
+    requires
+      old(self).pos_ok(),
+    ensures
+      r is None ==> *final(self) == *old(self),                                // :no_token_no_state_change
+      r is Some ==> {
+        let loc = r->Some_0.1;
+        &&& final(self).pos_ok()
+        &&& final(self).lexer.src() == old(self).lexer.src()
+        &&& final(self).lexer.off() >= old(self).lexer.off() + 4
+        &&& loc.start == old(self).position && loc.end == final(self).position
+        &&& loc.module_reference == old(self).module_reference
+        &&& pos_le(loc.start, loc.end)
+      },                                                                       // :comment_token_location_is_faithful
+      final(self).module_reference == old(self).module_reference,
+//@loop 0
+      invariant
+        self.lexer == old(self).lexer, self.module_reference == old(self).module_reference,
+        old(self).pos_ok(),
+        saved_position == old(self).position, start == old(self).position,
+        remainder_bytes@ == old(self).lexer.rem(),
+        2 <= comment_length <= remainder_bytes@.len(),
+        remainder_bytes@[0] == 0x2Fu8 && remainder_bytes@[1] == 0x2Au8,
+        self.pos_at(comment_length as int),
+      ensures
+        self.lexer == old(self).lexer, self.module_reference == old(self).module_reference,
+        4 <= comment_length <= remainder_bytes@.len(),
+        remainder_bytes@[comment_length - 2] == 0x2Au8 && remainder_bytes@[comment_length - 1] == 0x2Fu8,
+        self.pos_at(comment_length as int),
+      decreases remainder_bytes@.len() - comment_length,
+//@before#1 self.next_n_column(2);
+    proof {
+      let s = old(self).lexer.src(); let o = old(self).lexer.off();
+      assert(s[o] == remainder_bytes@[0] && s[o + 1] == remainder_bytes@[1]);
+      assert forall|i: int| o <= i < o + 2 implies s[i] != 10u8 by {}
+      lemma_advance_no_newline(s, o, 2);
+      lemma_pos_bounds(s, o + 2);
+    }
+//@before if c == b'*' && remainder_bytes[comment_length + 1] == b'/' {
+      let ghost s = old(self).lexer.src(); let ghost o = old(self).lexer.off();
+      proof {
+        assert(s[o + comment_length] == remainder_bytes@[comment_length as int]);
+        assert(s[o + comment_length + 1] == remainder_bytes@[comment_length + 1]);
+        lemma_pos_bounds(s, o + comment_length);
+      }
+//@before comment_length += 2;
+        proof {
+          assert forall|i: int| o + comment_length <= i < o + comment_length + 2 implies s[i] != 10u8 by {}
+          lemma_advance_no_newline(s, o + comment_length, 2);
+          lemma_pos_bounds(s, o + comment_length + 2);
+        }
+//@before self.lexer.bump(comment_length);
+    proof {
+      broadcast use axiom_after_ascii_is_boundary;
+      let s = old(self).lexer.src(); let o = old(self).lexer.off();
+      assert(s[o + comment_length - 1] == remainder_bytes@[comment_length - 1]);
+      lemma_pos_bounds(s, o + comment_length);
+      lemma_pos_monotone(s, o, o + comment_length);
     }
 //@end
 }
